@@ -69,7 +69,8 @@ def check(ctx):
     for e in uniq_events(pipe, {'kdtree_coords'}, under(cas.qualname)):
         gs = all_geos(e['coords'])
         ok = bool(gs) and all(is_cart(g) and g[1] == 'MDA' for g in gs)
-        ctx.ob('R1', cas, e['node'], True if ok else (None if not gs else False),
+        coordlike = bool(gs) and all(g[0] in ('FRAC', 'FDIFF', 'CART', 'RAW', 'CARTSQ', 'DIST') for g in gs)
+        ctx.ob('R1', cas, e['node'], True if ok else (None if not coordlike else False),
                'tree coordinates in the tree frame' if ok else f'{e["which"]} receives {", ".join(geo_text(g) for g in gs)}: site assignment depends on the '
                'orientation of the lattice vectors')
     for e in uniq_events(pipe, {'pbc_distance'}, in_scope):
